@@ -89,9 +89,10 @@ def from_digraph(p, rng):
     return proj_graph(g, "dg")
 
 
-def dense_knot(rng):
+def dense_knot(rng, p=0.3):
     """7-9 gates with dense mutual feedback (overlapping, knotted cycles); too wide for the all-bits judgement, so these
-    cases are recorded only when the call raises or (1 in 25) for the structural clauses."""
+    cases are recorded only when the call raises or (1 in 25) for the structural clauses.  With p = 0.18 loops mix with
+    feed-forward logic: orderings of the feedback heuristic then have backward edges that are on no loop."""
     import networkx as nx
 
     n = rng.choice([7, 7, 8, 9])
@@ -105,7 +106,7 @@ def dense_knot(rng):
         g.add_edge("x%d" % i, "g%d" % i)
     for i in range(n):
         for j in range(n):
-            if i != j and rng.random() < 0.3:
+            if i != j and rng.random() < p:
                 g.add_edge("g%d" % i, "g%d" % j)
     if nx.is_directed_acyclic_graph(g):
         return None
@@ -119,6 +120,10 @@ def cases(ctx):
         p = dense_knot(ctx.rng("C18knot", j))
         if p is not None:
             yield {"op": "acyclic_unroll_cyclic", "c": p, "src": "KNOT", "sparse": j % 25 != 0}
+    for j in range(6000 if ctx.quick else 40000):
+        p = dense_knot(ctx.rng("C18knot2", j), 0.18)
+        if p is not None:
+            yield {"op": "acyclic_unroll_cyclic", "c": p, "src": "KNOT2", "sparse": j % 50 != 0}
     rng = ctx.rng("C18")
     dg4 = ctx.family("DG4")
     k = 0
